@@ -45,7 +45,7 @@ pub struct Context<'a> {
 impl<'a> Context<'a> {
     pub fn decrypt<'buf>(&self, data: &'buf mut [u8]) -> Result<&'buf [u8]> {
         if let Some(decoder) = self.decoder {
-            decoder.decrypt(self.id, data)
+            decoder.decrypt_string(self.id, data)
         } else {
             Ok(data)
         }
